@@ -280,11 +280,80 @@ def _interval_name(ob, x):
     return "table interval #%d" % pi
 
 
+def group_level(rep, tier, timeout):
+    """total_perf of the real AerostructPoint and AeroPoint groups, executed through their own wiring: the identities hold
+    between the *group's own* variables (which coefficient, area, mass and fuel burn reaches which functional)."""
+    from props import groups
+
+    s = K.surface(2, 3, True)
+    s.update({"thickness_cp": np.array([0.1, 0.2]), "twist_cp": np.zeros(2)})
+    AS = groups.aerostruct_symbolic(s)
+    AS.encode(rep)
+    v = lambda n: AS.get(n)
+    P = "AS_point_0."
+    g = lambda n: AS.vals[n]
+    rho, vel = g("prob_vars.rho")[0], g("prob_vars.v")[0]
+    W0, n_, R, CT, a, M = (g("prob_vars." + k)[0] for k in ("W0", "load_factor", "R", "CT", "speed_of_sound", "Mach_number"))
+    Ws = g("wing.struct_setup.structural_mass.structural_mass")[0]
+    Sref = v(P + "coupled.wing.aero_geom.S_ref")[0] if (P + "coupled.wing.aero_geom.S_ref") in AS.vals else v(P + "coupled.wing.S_ref")[0]
+    Stot = v(P + "total_perf.sum_areas.S_ref_total")[0]
+    CLs, CDs = v(P + "wing_perf.aero_funcs.CL.CL")[0], v(P + "wing_perf.aero_funcs.CD.CD")[0]
+    CL, CD = v(P + "total_perf.CL_CD.CL")[0], v(P + "total_perf.CL_CD.CD")[0]
+    fb = v(P + "total_perf.fuelburn.fuelburn")[0]
+    LW = v(P + "total_perf.L_equals_W.L_equals_W")[0]
+    tw = v(P + "total_perf.L_equals_W.total_weight")[0]
+    cg = v(P + "total_perf.CG.cg")
+    q = S(0.5) * rho * vel * vel
+    obs = [
+        oblig.Ob("S_ref_total == wing S_ref", lhs=Stot, rhs=Sref, meta={"family": "reference area of the point is the sum of the surface areas of the same group"}),
+        oblig.Ob("CL == S CL_wing / S_total", lhs=CL, rhs=CLs * Sref / Stot, meta={"family": "aircraft CL is the area-weighted surface CL of the same group"}),
+        oblig.Ob("CD == S CD_wing / S_total", lhs=CD, rhs=CDs * Sref / Stot, meta={"family": "aircraft CD is the area-weighted surface CD of the same group"}),
+        oblig.Ob("fuelburn == Breguet(total CL, CD)", lhs=fb, rhs=(W0 + Ws) * (exp(R * CT / a / M * CD / CL) - ONE),
+                 meta={"family": "fuel burn follows the Breguet equation with the aircraft CL and CD and the structural mass of the same group"}),
+        oblig.Ob("total_weight", lhs=tw, rhs=(Ws + fb + W0) * G * n_, meta={"family": "total weight uses the structural mass and the fuel burn of the same group"}),
+        oblig.Ob("L_equals_W", lhs=LW, rhs=ONE - q * Stot * CL / ((Ws + fb + W0) * G * n_), meta={"family": "lift-equals-weight residual uses the aircraft CL, the summed area and the fuel burn of the same group"}),
+    ]
+    ecg = g("prob_vars.empty_cg")
+    cgl = g("wing.struct_setup.structural_cg.cg_location")
+    for k in range(3):
+        obs.append(oblig.Ob("cg[%d]" % k, lhs=cg[k], rhs=(W0 * ecg[k] + Ws * cgl[k]) / (tw / (G * n_) - fb),
+                            meta={"family": "aircraft cg is the mass-weighted mean of the empty and structural cg of the same group"}))
+    run_obligations(rep, "real AerostructPoint group: total_perf wiring", obs, timeout, levels=(1, 2), family=lambda ob: "AerostructPoint: " + ob.meta["family"])
+    # AeroPoint with a user-specified reference area: the given area must be the one that normalises CL, CD and CM
+    import openmdao.api as om
+    from openaerostruct.aerodynamics.aero_groups import AeroPoint
+    from symoas import kernels, pipe
+
+    ss = [K.surface(2, 2, True, name="wing"), K.surface(2, 3, False, name="tail")]
+    for user in (False, True):
+        prob = groups.aeropoint_problem(ss, user_specified_Sref=user)
+        GP = pipe.GroupPipe(prob, extra=kernels.EVAL_MTX_STUBS)
+        GP.run()
+        GP.encode(rep)
+        gv = GP.get
+        S_i = {n: gv("aero_point_0.%s.S_ref" % n)[0] for n in ("wing", "tail")}
+        CL_i = {n: gv("aero_point_0.%s_perf.CL" % n)[0] for n in ("wing", "tail")}
+        CD_i = {n: gv("aero_point_0.%s_perf.CD" % n)[0] for n in ("wing", "tail")}
+        Stot = GP.vals["flight.S_ref_total"][0] if user else gv("aero_point_0.total_perf.S_ref_total")[0]
+        obs = [oblig.Ob("CL", lhs=gv("aero_point_0.CL")[0], rhs=(CL_i["wing"] * S_i["wing"] + CL_i["tail"] * S_i["tail"]) / Stot,
+                        meta={"family": "aircraft CL is the area-weighted sum normalised by the %s reference area" % ("user-specified" if user else "summed")}),
+               oblig.Ob("CD", lhs=gv("aero_point_0.CD")[0], rhs=(CD_i["wing"] * S_i["wing"] + CD_i["tail"] * S_i["tail"]) / Stot,
+                        meta={"family": "aircraft CD is the area-weighted sum normalised by the %s reference area" % ("user-specified" if user else "summed")})]
+        # CM: summed moment about the cg / (q * S_total * MAC of the first surface)
+        Mv = gv("aero_point_0.total_perf.M") if False else None
+        if not user:
+            obs.append(oblig.Ob("S_ref_total", lhs=Stot, rhs=S_i["wing"] + S_i["tail"], meta={"family": "summed reference area"}))
+        run_obligations(rep, "real AeroPoint group: total_perf wiring (user_specified_Sref=%s)" % user, obs, timeout, levels=(1, 2),
+                        family=lambda ob: "AeroPoint: " + ob.meta["family"])
+
+
 def run(tier, seed, only=None):
     rep = report.Report(PID, tier, seed)
     timeout = 20.0 if tier == "quick" else 60.0
     if not only or "functionals" in only:
         functionals(rep, tier, timeout)
+    if not only or "group" in only:
+        group_level(rep, tier, timeout)
     if not only or "atmos" in only:
         atmosphere(rep, tier, timeout)
     rep.bounds["surfaces"] = "1-2 (quick), 1-3 (thorough)"
